@@ -609,7 +609,7 @@ void ExpressionBuilder::expr_dot(const char* id)
         if (dynamicFrames.find(expr.get_symbol().get_name()) == dynamicFrames.end()) {
             throw UnknownIdentifierError(expr.get_symbol().get_name());
         }
-        push_frame(dynamicFrames[expr.get_symbol().get_name()]);
+        push_frame(dynamicFrames[expr.get_symbol().get_name()].back());
 
         if (!resolve(id, uid)) {
             expr_false();
@@ -1096,7 +1096,16 @@ void ExpressionBuilder::push_dynamic_frame_of(template_t* t, string name)
     if (!t->is_defined) {
         throw TypeException("Template referenced before used");
     }
-    dynamicFrames[name] = t->frame;
+    dynamicFrames[name].push_back(t->frame);
 }
 
-void ExpressionBuilder::pop_dynamic_frame_of(string name) { dynamicFrames.erase(name); }
+void ExpressionBuilder::pop_dynamic_frame_of(string name)
+{
+    // A quantifier nested in another one with the same binder name must not take the outer binder's frame with it.
+    auto it = dynamicFrames.find(name);
+    if (it == dynamicFrames.end())
+        return;
+    it->second.pop_back();
+    if (it->second.empty())
+        dynamicFrames.erase(it);
+}
